@@ -1,8 +1,218 @@
 import DarkluaModel.Util.Sexp
-/-! Line-protocol handlers for property C10 (stub: nothing modelled yet). -/
+import DarkluaModel.C10.Model
+import DarkluaModel.C10.Spec
+/-!
+Line-protocol handlers for property C10.
+
+`c10.run (req (in P) (out P) (lua n*) (univ P*) (init (f P c)*) (hashes (h k n)*)
+              (T (e k (fs (c|n)*) P (ok c)|err (deps P*))*) (hist op*))`
+runs `Model.start`, then `Model.step` per operation (the same definitions `Thm.lean` is about),
+and answers `(run (steps s*) (h10 ok|F10|…) (fresh t))` with one `s` per `process`:
+`(ok (tree (f P c)*) (succ n) (errs n) (ext P*))` or `panic` / `hang`.
+`T` is the table measured by the harness on the real code, keyed by configuration, the
+contents of the universe paths, and the source path. A missing entry yields the sentinel
+content `tmiss` which the driver reports as an error.
+-/
 namespace DarkluaModel.C10
 
-def handle (op : String) (_args : List String) : String :=
-  "unknown-op " ++ op
+open DarkluaModel (Sexp)
+
+def tmiss : Content := 4000000000
+
+def path? (s : Sexp) : Option Path :=
+  match s with
+  | .list (.atom "p" :: comps) => comps.mapM Sexp.nat?
+  | _ => none
+
+def pathSx (p : Path) : Sexp := .list (.atom "p" :: p.map fun n => .atom (toString n))
+
+def field (tag : String) : List Sexp → Option (List Sexp)
+  | [] => none
+  | .list (.atom t :: rest) :: more => if t == tag then some rest else field tag more
+  | _ :: more => field tag more
+
+structure TEntry where
+  cfg : Cfg
+  fsKey : List (Option Content)
+  path : Path
+  res : TRes
+
+def optContent? (s : Sexp) : Option (Option Content) :=
+  match s with
+  | .atom "n" => some none
+  | s => s.nat?.map some
+
+def tentry? (s : Sexp) : Option TEntry :=
+  match s with
+  | .list [.atom "e", k, .list (.atom "fs" :: fs), p, out, .list (.atom "deps" :: deps)] => do
+    let k ← k.nat?
+    let fs ← fs.mapM optContent?
+    let p ← path? p
+    let out ← match out with
+      | .atom "err" => some none
+      | .list [.atom "ok", c] => c.nat?.map some
+      | _ => none
+    let deps ← deps.mapM path?
+    pure { cfg := k, fsKey := fs, path := p, res := { out := out, deps := deps } }
+  | _ => none
+
+def fileEntry? (s : Sexp) : Option (Path × Content) :=
+  match s with
+  | .list [.atom "f", p, c] => do pure (← path? p, ← c.nat?)
+  | _ => none
+
+def hashEntry? (s : Sexp) : Option (Cfg × Nat) :=
+  match s with
+  | .list [.atom "h", k, n] => do pure (← k.nat?, ← n.nat?)
+  | _ => none
+
+def op? (s : Sexp) : Option Op :=
+  match s with
+  | .list [.atom "edit", p, c] => do pure (.edit (← path? p) (← c.nat?))
+  | .list [.atom "add", p, c] => do pure (.add (← path? p) (← c.nat?))
+  | .list [.atom "rm", p] => do pure (.removeFile (← path? p))
+  | .list [.atom "rmdir", p] => do pure (.removeDir (← path? p))
+  | .list [.atom "cfg", k] => do pure (.setConfig (← k.nat?))
+  | .atom "collect" => some .collectWork
+  | .atom "process" => some .process
+  | _ => none
+
+def mkParams (sentinel : Content) (input output : Path) (lua : List Nat) (univ : List Path)
+    (hashes : List (Cfg × Nat)) (table : List TEntry) : Params :=
+  { T := fun cfg fs p =>
+      let key := univ.map fs
+      match table.find? (fun e => e.cfg == cfg && e.path == p && e.fsKey == key) with
+      | some e => e.res
+      | none => { out := some sentinel, deps := [] }
+    configHash := fun k => match hashes.find? (fun e => e.1 == k) with
+      | some e => e.2
+      | none => 1000000 + k
+    input := input
+    output := output
+    isLua := fun p => match p.getLast? with
+      | some c => lua.contains c
+      | none => false }
+
+def regionName : Region → String
+  | .F10 => "F10" | .F11 => "F11" | .F11b => "F11b" | .F12 => "F12" | .F13 => "F13" | .E => "E" | .X => "X"
+
+def insertSorted (e : Path × Content) : List (Path × Content) → List (Path × Content)
+  | [] => [e]
+  | x :: xs => if compareOfLessAndEq e.1 x.1 == .lt then e :: x :: xs else x :: insertSorted e xs
+
+def treeSx (P : Params) (fs : Fs) : Sexp :=
+  let files := (fs.filter fun e => startsWith e.1 P.output).foldr insertSorted []
+  .list (.atom "tree" :: files.map fun e => .list [.atom "f", pathSx e.1, .atom (toString e.2)])
+
+def obsSx (P : Params) (st : State) : Sexp :=
+  .list [.atom "ok", treeSx P st.fs,
+    .list [.atom "succ", .atom (toString (successCount st))],
+    .list [.atom "errs", .atom (toString (errorCount st))],
+    .list (.atom "ext" :: (externalKeys st).map pathSx)]
+
+/-- walk the operations with the model's `step`, collecting one observation per `process`
+and the first excluded region (`regionOf`, the monitor behind `H10`). -/
+def walk (P : Params) (fuel : Nat) : State → Cfg → List (Region × Nat) → Nat → List Op → List Sexp →
+    List Sexp × List (Region × Nat) × Option State
+  | st, _, reg, _, [], acc => (acc.reverse, reg.reverse, some st)
+  | st, last, reg, k, op :: ops, acc =>
+    let reg' := match regionOf P last st op with
+      | some r => (r, k) :: reg
+      | none => reg
+    match step P fuel st op with
+    | .ok st' =>
+      let acc' := if op == .process then obsSx P st' :: acc else acc
+      walk P fuel st' (nextLast last st' op) reg' (k + 1) ops acc'
+    | .panic => ((Sexp.atom "panic" :: acc).reverse, reg'.reverse, none)
+    | .hang => ((Sexp.atom "hang" :: acc).reverse, reg'.reverse, none)
+
+def containsTmiss (fs : Fs) : Bool := fs.any fun e => e.2 ≥ tmiss
+
+def runReqWith (sentinel : Content) (req : Sexp) : String :=
+  match req with
+  | .list (.atom "req" :: fields) =>
+    let parsed : Option (Params × Fs × List Op) := do
+      let input ← (← field "in" fields).head? >>= path?
+      let output ← (← field "out" fields).head? >>= path?
+      let lua ← (← field "lua" fields).mapM Sexp.nat?
+      let univ ← (← field "univ" fields).mapM path?
+      let init ← (← field "init" fields).mapM fileEntry?
+      let hashes ← (← field "hashes" fields).mapM hashEntry?
+      let table ← (← field "T" fields).mapM tentry?
+      let hist ← (← field "hist" fields).mapM op?
+      pure (mkParams sentinel input output lua univ hashes table, init, hist)
+    match parsed with
+    | none => "bad-request"
+    | some (P, init, hist) =>
+      -- the harness closes every history with `process` itself
+      match start P defaultFuel init 0 with
+      | .ok st0 =>
+        let (steps, reg, final) := walk P defaultFuel st0 0 [] 0 hist []
+        let missing := match final with
+          | some st => containsTmiss st.fs
+          | none => false
+        if missing || containsTmiss st0.fs then "tmiss"
+        else
+          let h10 := match reg with
+            | r :: _ => [Sexp.atom (regionName r.1), Sexp.atom (toString r.2)]
+            | [] => [Sexp.atom "ok"]
+          let hits := reg.map fun r => Sexp.atom (regionName r.1 ++ "@" ++ toString r.2)
+          -- cross-check with the definition the theorems use
+          let h10def := match hist.getLast? with
+            | some .process => H10 P defaultFuel init 0 hist.dropLast
+            | _ => H10 P defaultFuel init 0 hist
+          let consistent := (h10def == reg.isEmpty) || hist.getLast? != some .process
+          let fresh := match final with
+            | some st =>
+              let keys := ((st.fs ++ init).map (·.1)).filter fun q => startsWith q P.output
+              let ok := keys.all fun q => alookup st.fs q == freshOut P st.cfg init st.fs q
+              if ok then "same" else "differs"
+            | none => "none"
+          if !consistent then "h10-inconsistent"
+          else toString (Sexp.list [.atom "run", .list (.atom "steps" :: steps),
+            .list (.atom "h10" :: h10), .list (.atom "hits" :: hits), .list [.atom "fresh", .atom fresh]])
+      | .panic => "(run (steps panic) (h10 ok) (fresh none))"
+      | .hang => "(run (steps hang) (h10 ok) (fresh none))"
+  | _ => "bad-request"
+
+/-- A table miss anywhere (also inside the H10 monitor) changes the answer with the sentinel. -/
+def runReq (req : Sexp) : String :=
+  let a := runReqWith tmiss req
+  let b := runReqWith (tmiss + 1) req
+  if a == b then a else "tmiss"
+
+def handle (op : String) (args : List String) : String :=
+  match op with
+  | "run" =>
+    match Sexp.parse (" ".intercalate args) with
+    | some req => runReq req
+    | none => "bad-sexp"
+  | "genloop" =>
+    -- `c10.genloop total pending d1 d2 …` : does the loop's counter logic exit within these passes?
+    match args.mapM String.toNat? with
+    | some (total :: pending :: ds) => toString (genLoop total pending ds)
+    | _ => "bad-request"
+  | "h10" =>
+    -- the hypothesis of `worker_refines_fresh_partial` alone: `true` / `false` (same request as `run`;
+    -- the history is taken WITHOUT its closing `process`, which `H10` appends itself)
+    match Sexp.parse (" ".intercalate args) with
+    | some (.list (.atom "req" :: fields)) =>
+      let parsed : Option (Params × Fs × List Op) := do
+        let input ← (← field "in" fields).head? >>= path?
+        let output ← (← field "out" fields).head? >>= path?
+        let lua ← (← field "lua" fields).mapM Sexp.nat?
+        let univ ← (← field "univ" fields).mapM path?
+        let init ← (← field "init" fields).mapM fileEntry?
+        let hashes ← (← field "hashes" fields).mapM hashEntry?
+        let table ← (← field "T" fields).mapM tentry?
+        let hist ← (← field "hist" fields).mapM op?
+        pure (mkParams tmiss input output lua univ hashes table, init, hist)
+      match parsed with
+      | some (P, init, hist) =>
+        let h := if hist.getLast? == some .process then hist.dropLast else hist
+        toString (H10 P defaultFuel init 0 h)
+      | none => "bad-request"
+    | _ => "bad-sexp"
+  | _ => "unknown-op " ++ op
 
 end DarkluaModel.C10
